@@ -473,7 +473,13 @@ func shouldIgnoreTriple(t *triple.Triple, cls *semantic.GraphClause) (bool, erro
 		}
 	}
 	if cls.OID != "" {
-		if p, err := t.Object().Predicate(); err == nil {
+		p, err := t.Object().Predicate()
+		if err != nil {
+			// A partially specified predicate ("id"@[?t], "id"@[lo,hi]) in the
+			// object position can only match objects that are predicates.
+			return true, nil
+		}
+		if err == nil {
 			// The triples need to be filtered.
 			if string(p.ID()) != cls.OID {
 				return true, nil
